@@ -254,7 +254,7 @@ func cacheState(c *cdi.Cache, dirs []string) (string, map[string]any) {
 }
 
 func checkC11(c *Ctx) {
-	c.Rule = "seeded histories of 1-12 file-system operations over 1-3 configured directories (+ anchor): create-by-write, touch, rewrite in place, truncate to zero length, append, tmp+rename inside, rename in from a staging directory, hard link in, rename away, rename to/from a non-Spec name, unlink, chmod, create a missing (nested) directory, remove a directory with its content, recreate it (also back to back); valid and invalid content; pacing per step in {immediately, after yield, after logical quiescence, with the watcher goroutine held so that further operations pile up behind it, from inside a refresh's directory scan (scan.beforeRead hook) so that the change lands after its entry was passed}; observed through ListDevices/GetDevice/GetErrors/InjectDevices only (never Refresh()); oracle: after quiescence, within two rounds of queries, devices, definitions and files in error equal those of a fresh manual cache on the final contents; distinct_nontrivial = distinct (operation-kind sequence, pacing sequence) whose final state differs from the initial one"
+	c.Rule = "seeded histories of 1-12 file-system operations over 1-3 configured directories (+ anchor): create-by-write, touch, rewrite in place, truncate to zero length, append, tmp+rename inside, rename in from a staging directory, hard link in, rename away, rename to/from a non-Spec name, unlink, chmod, create a missing (nested) directory, remove a directory with its content, recreate it (also back to back); valid and invalid content; pacing per step in {immediately, after yield, after logical quiescence, with the watcher goroutine held so that further operations pile up behind it, from inside the constructor's own directory scan, from inside a refresh's directory scan (scan.beforeRead hook) so that the change lands after its entry was passed}; observed through ListDevices/GetDevice/GetErrors/InjectDevices only (never Refresh()); oracle: after quiescence, within two rounds of queries, devices, definitions and files in error equal those of a fresh manual cache on the final contents; distinct_nontrivial = distinct (operation-kind sequence, pacing sequence) whose final state differs from the initial one"
 	c.Assume("inotify delivers the events of one instance in order and the watcher goroutine handles one event completely before the next (quiescence by sentinel)", "renaming a configured directory itself, symlinks and bind mounts are outside the listed change kinds", "convergence is checked at history end, not at every instant")
 	c.RunCases("hist", c.pick(700, 12000), 4, func(cs *Case) {
 		r := cs.R
@@ -278,17 +278,24 @@ func checkC11(c *Ctx) {
 			w.dirs = append(w.dirs, d)
 		}
 		all := append([]string{anchor}, w.dirs...)
-		a, err := newAutoCache(root, anchor, all)
-		if err != nil {
-			c.Inconclusive("no-inotify")
-			return
-		}
-		defer a.Close()
-		initial, _ := cacheState(a.C, all)
 		// the history
 		var history, kinds, pacing []string
 		var armed func()
 		var armMu sync.Mutex
+		if chance(r, 30) {
+			// a change that lands while the cache is being constructed: performed from
+			// inside the constructor's own directory scan
+			kind := pickStr(r, "rename-in-from-outside", "create-by-write", "unlink", "rewrite-in-place", "rename-away", "hardlink-in")
+			armed = func() {
+				if d := w.do(kind); d != "" {
+					armMu.Lock()
+					history = append(history, "during-construction: "+d)
+					kinds = append(kinds, kind)
+					pacing = append(pacing, "during-construction")
+					armMu.Unlock()
+				}
+			}
+		}
 		unhook := hookPrefix(root, func(point, arg string, n int) {
 			if point != "scan.beforeRead" {
 				return
@@ -303,7 +310,17 @@ func checkC11(c *Ctx) {
 			}
 		})
 		defer unhook()
+		a, err := newAutoCache(root, anchor, all)
+		if err != nil {
+			c.Inconclusive("no-inotify")
+			return
+		}
+		defer a.Close()
+		initial, _ := cacheState(a.C, all)
 		steps := 1 + r.Intn(12)
+		if len(kinds) > 0 && chance(r, 50) {
+			steps = 0 // the construction-time change is the whole history
+		}
 		var release func()
 		held := 0
 		for i := 0; i < steps; i++ {
